@@ -385,9 +385,13 @@ package internal
 // `store` is the abstract content of the backing store (refined by C06/C08/C14 contracts).
 //@ ghost var storeWrites int
 
+// the store key of a URL: a function of the URL's component values (C03 says which)
+//@ spec func urlKeyV(scheme string, opaque string, host string, path string, rawPath string, rawQuery string) string
+//@ spec func urlKeyOf(u *url.URL) string = urlKeyV(u.Scheme, u.Opaque, u.Host, u.Path, u.RawPath, u.RawQuery)
 //@ iface URLKeyer.URLKey(k, u)
 //@   pure
 //@   requires u != nil
+//@   ensures result == urlKeyOf(u)
 
 //@ iface RequestMethodChecker.IsRequestMethodUnderstood(c, req)
 //@   pure
@@ -454,8 +458,12 @@ package internal
 //@   property C06
 //@   requires lastSetOK                                                             # name: entry-was-stored
 //@   assigns storeWrites
+// deletedKeys: the keys passed to ResponseCache.Delete during this exchange (C07, C19)
+//@ ghost var deletedKeys Arr[string, bool]
 //@ iface ResponseCache.Delete(c, key)
-//@   assigns storeWrites
+//@   property C07
+//@   assigns storeWrites, deletedKeys
+//@   ensures deletedKeys == arrStore(old(deletedKeys), key, true)                   # ghost-update
 
 //@ iface ResponseStorer.StoreResponse(s, req, resp, urlKey, refs, reqTime, respTime, refIndex)
 //@   property C06
@@ -467,8 +475,13 @@ package internal
 //@   ensures bodyReadFailed ==> storeWrites == old(storeWrites)                     # name: nothing-written-when-body-unreadable
 
 //@ iface CacheInvalidator.InvalidateCache(ci, reqURL, respHeader, refs, key)
-//@   requires reqURL != nil
-//@   assigns storeWrites
+//@   property C07 C19
+//@   requires reqURL != nil                                                          # name: url-non-nil
+//@   requires allRefsNonNil(refs)                                                    # name: refs-non-nil
+//@   assigns storeWrites, deletedKeys
+//@   ensures deletedKeys[key]                                                        # name: index-deleted
+//@   ensures forall i int :: 0 <= i && i < len(refs) ==> deletedKeys[refs[i].ResponseID]     # name: every-variant-deleted
+//@   ensures forall x string :: old(deletedKeys)[x] ==> deletedKeys[x]               # name: deletions-accumulate
 
 // ---- C07: unsafe methods ----------------------------------------------------------------
 // methods registered as safe in the IANA HTTP Method Registry
@@ -678,3 +691,62 @@ package internal
 //@   ensures has(ccResp, "no-cache") ==> (forall j int :: 0 <= j && j < csvN(nc) ==> !has(h, canon(csvAt(nc, j))))     # name: listed-fields-removed
 //@   ensures forall k string :: !has(old(h), k) ==> !has(h, k)                                                           # name: nothing-added
 //@   ensures forall k string :: has(h, k) ==> get(h, k) == old(get(h, k))                                                # name: kept-fields-unchanged
+
+// ---- C07 / C19: invalidation deletes every variant and the index -------------------------------------
+//@ func (ResponseRefs).ResponseIDs$1
+//@   property C07 C19
+//@   requires allRefsNonNil(*he)
+//@   yields len(*he) :: (*he)[k].ResponseID
+//@   loop 0 invariant -1 <= rangeindex && rangeindex < len(*he) && yielded == rangeindex + 1 && !stopped
+//@ func (ResponseRefs).ResponseIDs
+//@   property C07 C19
+//@   pure
+//@   requires allRefsNonNil(he)
+//@   ensures result != nil && seqLen(result) == len(he)                                                    # name: one-id-per-ref
+//@   ensures forall k int :: 0 <= k && k < len(he) ==> seqAt(result, k) == he[k].ResponseID                # name: ids-in-order
+
+// del: delete a key once (closure of InvalidateCache over `deleted` and the receiver)
+//@ func (*cacheInvalidator).InvalidateCache$1
+//@   property C07 C19
+//@   requires *r != nil && (*r).cache != nil && *deleted != nil
+//@   requires forall x string :: has(*deleted, x) ==> deletedKeys[x]                                       # name: local-set-is-deleted
+//@   assigns storeWrites, deletedKeys, map(*deleted)
+//@   ensures deletedKeys[k] && has(*deleted, k)                                                            # name: key-deleted
+//@   ensures forall x string :: old(deletedKeys)[x] ==> deletedKeys[x]                                     # name: deletions-accumulate
+//@   ensures forall x string :: has(*deleted, x) ==> deletedKeys[x]                                        # name: local-set-is-deleted
+//@   ensures forall x string :: old(has(*deleted, x)) ==> has(*deleted, x)                                 # name: local-set-grows
+
+// the delete function handed to invalidateLocationHeaders behaves like `del` (assumed of the parameter;
+// the only caller passes `del` itself)
+//@ fnparam (*cacheInvalidator).invalidateLocationHeaders.deleteFn(k)
+//@   assigns storeWrites, deletedKeys
+//@   ensures deletedKeys[k]
+//@   ensures forall x string :: old(deletedKeys)[x] ==> deletedKeys[x]
+
+//@ func (*cacheInvalidator).invalidateLocationHeaders
+//@   property C07
+//@   nosafety
+//@   requires r != nil && r.cache != nil && r.cke != nil && reqURL != nil && deleteFn != nil
+//@   assigns storeWrites, deletedKeys
+//@   ensures forall x string :: old(deletedKeys)[x] ==> deletedKeys[x]                                     # name: deletions-accumulate
+//@   loop 0 invariant forall x string :: old(deletedKeys)[x] ==> deletedKeys[x]
+//@   rangefunc 0 invariant forall x string :: old(deletedKeys)[x] ==> deletedKeys[x]
+
+//@ func (*cacheInvalidator).InvalidateCache
+//@   implements CacheInvalidator.InvalidateCache
+//@   requires r != nil && r.cache != nil && r.cke != nil
+//@   rangefunc 0 invariant forall j int :: 0 <= j && j < iter ==> deletedKeys[refs[j].ResponseID]
+//@   rangefunc 0 invariant forall x string :: old(deletedKeys)[x] ==> deletedKeys[x]
+//@   rangefunc 0 invariant forall x string :: has(deleted, x) ==> deletedKeys[x]
+//@   rangefunc 0 invariant deleted != nil
+
+//@ spec func effPort(u *url.URL) string = ite(portOfHost(u.Host) == "", ite(u.Scheme == "http", "80", ite(u.Scheme == "https", "443", "")), portOfHost(u.Host))
+//@ func defaultPort
+//@   property C03 C07
+//@   pure
+//@   ensures result == ite(scheme == "http", "80", ite(scheme == "https", "443", ""))                 # name: exact
+//@ func sameOrigin
+//@   property C07
+//@   pure
+//@   requires a != nil && b != nil
+//@   ensures result == (lower(a.Scheme) == lower(b.Scheme) && lower(nameOfHost(a.Host)) == lower(nameOfHost(b.Host)) && effPort(a) == effPort(b))    # name: scheme-host-port
